@@ -57,7 +57,7 @@ TypeOKr(Post) == /\ Post.C \in 0..65535 /\ Post.X \in 0..65535 /\ Post.Y \in 0..
 AddrInRanger(r) == \A i \in 1..Len(r.wr) : r.wr[i][1] \in 0..16777215 /\ r.wr[i][2] \in 0..255
 WritesBoundedr(r) == Len(r.wr) <= 4
 OnlyListedFreer(r) == r.free \subseteq {"A", "N", "V", "Z", "C", "PC"}
-BinaryIsDeterminater(r) == (Bit(Pre.P, FD) = 0 /\ Op(op).mn \notin {"stp", "wai"}) => r.free = {}
+BinaryIsDeterminater(r) == (Bit(Pre.P, FD) = 0 /\ Op(op).mn \notin {"stp", "wai", "jsr"}) => r.free = {}
 \* instruction length law: unless control is transferred, PC advances by the architectural length inside the bank
 Transfers == {"bpl", "bmi", "bvc", "bvs", "bcc", "bcs", "bne", "beq", "bra", "brl", "jmp", "jsr", "jsl", "rts", "rtl", "rti",
               "brk", "cop", "mvn", "mvp", "stp", "wai"}
